@@ -6,6 +6,7 @@ import (
 	"go/types"
 	"regexp/syntax"
 	"sort"
+	"strconv"
 	"strings"
 
 	"golang.org/x/tools/go/ssa"
@@ -171,6 +172,9 @@ func runC14(w *World, r *Report) {
 	}
 
 	c14Coverage(w, r)
+	c14CatchAllSpellings(w, r)
+	c14UnmanageSet(w, r)
+	r.Min("R5", 3)
 	r.Min("R1", 2)
 	r.Min("R2", 3)
 	r.Min("R3", 1)
@@ -377,7 +381,7 @@ func c14Coverage(w *World, r *Report) {
 		}
 		mg := CallsIn(f, false, "config.ManageHAProxyEndpoints")
 		un := CallsIn(f, false, "config.ScheduleUnmanageHAProxyEndpoints", "config.unmanageHAProxyEndpointsVoided")
-		df := CallsIn(f, false, "lo.Difference")
+		df := CallsIn(f, false, "config.EndpointsToUnmanage")
 		ok := len(mg) == 1 && len(un) >= 1 && len(df) == 1 && errReturned(f, mg[0])
 		if ok {
 			for _, u := range un {
@@ -389,7 +393,18 @@ func c14Coverage(w *World, r *Report) {
 			a := df[0].Common().Args
 			ok = ok && sameVal(a[1], fieldOfArg(mg[0].Common().Args[0], a[1])) // new endpoints are the ones just managed
 		}
-		r.Check(ok, "R5", shortName(site.fn)+"/manage-new-before-unmanaging-difference", f.Pos(), "the new endpoint set is registered (error returned) before Difference(old, new) is un-managed")
+		r.Check(ok, "R5", shortName(site.fn)+"/manage-new-before-unmanaging-difference", f.Pos(), "the new endpoint set is registered (error returned) before EndpointsToUnmanage(old, new) is un-managed")
+		// policies mode: the new policies version is served only once its endpoints are registered
+		if sv := CallsIn(f, false, "TxnPoliciesAccessor).setNextVersion"); len(sv) > 0 && len(mg) == 1 {
+			okV := true
+			for _, c := range sv {
+				op, _ := FindRel(Rels(c.Block()), func(v ssa.Value) bool { return v == mg[0].Value() }, isNilConst)
+				if !domInstr(mg[0], c) || op != "==" {
+					okV = false
+				}
+			}
+			r.Check(okV, "R5", shortName(site.fn)+"/version-published-after-endpoints-registered", posOf(sv[0]), "setNextVersion runs only after ManageHAProxyEndpoints returned nil: a failed registration never leaves the engine serving policies whose endpoints the proxy does not intercept")
+		}
 	}
 	if uh := w.Fn(pkgConfig, "updateHAProxyEndpoints"); uh != nil {
 		ma := CallsIn(uh, false, "config.manageAll")
@@ -474,4 +489,156 @@ func varargsConsts(v ssa.Value) []string {
 		out[i] = got[int64(i)]
 	}
 	return out
+}
+
+// c14CatchAllSpellings: every spelling of "any URL" that the flow loader
+// accepts makes the proxy manage all traffic. The reviewed spellings are "",
+// "*" and ".*"; the accepted set is evaluated from the comparisons.
+func c14CatchAllSpellings(w *World, r *Report) {
+	f := w.Fn(pkgSCfg, "Filter.IsAnyURLAccepted")
+	if f == nil {
+		r.Undec("R4", "Filter.IsAnyURLAccepted", token.NoPos, "function not found")
+		return
+	}
+	isURL := func(v ssa.Value) bool { return strings.HasSuffix(Path(v), "f.URL") }
+	acc := map[string]bool{}
+	shape := true
+	for _, alt := range ReturnAlts(f, 0) {
+		add := func(c Cond) {
+			if rel, ok := NormCond(c); ok && rel.Op == "==" {
+				for _, s := range [][2]ssa.Value{{rel.L, rel.R}, {rel.R, rel.L}} {
+					if k, isK := constString(s[1]); isK && isURL(s[0]) {
+						acc[k] = true
+						return
+					}
+				}
+			}
+			shape = false
+		}
+		if b, isC := constBool(alt.Val); isC {
+			if !b {
+				continue
+			}
+			// the deciding equality is the positive one
+			n := 0
+			for _, c := range alt.Conds {
+				if c.Pol {
+					add(c)
+					n++
+				}
+			}
+			if n != 1 {
+				shape = false
+			}
+			continue
+		}
+		add(Cond{V: alt.Val, Pol: true})
+	}
+	var missing []string
+	for _, s := range []string{"", "*", ".*"} {
+		if !acc[s] {
+			missing = append(missing, strconv.Quote(s))
+		}
+	}
+	r.Check(shape && len(missing) == 0, "R4", "IsAnyURLAccepted/catch-all-spellings", f.Pos(),
+		"IsAnyURLAccepted is a disjunction of URL == constant tests (=%v) accepting every reviewed catch-all spelling; missing: %v", shape, missing)
+}
+
+// c14UnmanageSet: after a reload only endpoints that the new configuration no
+// longer registers may be deleted from the proxy. The previous and the new
+// registration lists are built independently, so they must be compared by the
+// registered expression (value), never by pointer identity.
+func c14UnmanageSet(w *World, r *Report) {
+	// (a) no identity-based set operation over endpoint pointers
+	nId := 0
+	for _, f := range w.lunarFns {
+		if f.Origin() != nil {
+			continue
+		}
+		Instrs(f, func(in ssa.Instruction) {
+			c, ok := in.(ssa.CallInstruction)
+			if !ok {
+				return
+			}
+			id := calleeID(c)
+			if !strings.HasPrefix(id, "github.com/samber/lo.") {
+				return
+			}
+			for _, a := range c.Common().Args {
+				if sl, ok := a.Type().Underlying().(*types.Slice); ok {
+					if p, isPtr := sl.Elem().(*types.Pointer); isPtr {
+						if _, n := namedOf(p); n == "HAProxyEndpointData" {
+							nId++
+							r.Fail("R5", "unmanage-set/identity-comparison/"+shortFn(fnID(outermost(f))), posOf(in),
+								"%s over []*HAProxyEndpointData compares pointers: the previous and new lists are built independently, so every previously managed endpoint - also the ones the new configuration keeps - is scheduled for deletion from the proxy and the engine is bypassed after the stale-version delay", calleeShort(id))
+							return
+						}
+					}
+				}
+			}
+		})
+	}
+	// (b) what is unmanaged is a value-based difference previous \ current
+	helper := w.Fn(pkgConfig, "EndpointsToUnmanage")
+	okHelper := false
+	if helper != nil && len(helper.Params) == 2 {
+		// membership set keyed by the registered expression of the CURRENT list
+		keyed := false
+		Instrs(helper, func(in ssa.Instruction) {
+			if mu, ok := in.(*ssa.MapUpdate); ok && strings.HasSuffix(Path(mu.Key), ".Endpoint") && Derives(mu.Key, func(x ssa.Value) bool { return x == ssa.Value(helper.Params[1]) }) {
+				keyed = true
+			}
+		})
+		// an element of PREVIOUS is kept exactly when its expression is not in the set
+		kept := 0
+		good := true
+		Instrs(helper, func(in ssa.Instruction) {
+			c, ok := in.(*ssa.Call)
+			if !ok {
+				return
+			}
+			if b, isB := c.Call.Value.(*ssa.Builtin); !isB || b.Name() != "append" {
+				return
+			}
+			kept++
+			fromPrev := Derives(c.Call.Args[1], func(x ssa.Value) bool { return x == ssa.Value(helper.Params[0]) }) &&
+				!Derives(c.Call.Args[1], func(x ssa.Value) bool { return x == ssa.Value(helper.Params[1]) })
+			notFound := false
+			for _, cd := range CondsOf(c.Block()) {
+				e, isE := cd.V.(*ssa.Extract)
+				if !isE || e.Index != 1 || cd.Pol {
+					continue
+				}
+				if l, isL := e.Tuple.(*ssa.Lookup); isL && strings.HasSuffix(Path(l.Index), ".Endpoint") &&
+					Derives(l.Index, func(x ssa.Value) bool { return x == ssa.Value(helper.Params[0]) }) {
+					notFound = true
+				}
+			}
+			if !fromPrev || !notFound {
+				good = false
+			}
+		})
+		okHelper = keyed && kept == 1 && good
+	}
+	nSites := 0
+	for _, cs := range w.CallSites("config.ScheduleUnmanageHAProxyEndpoints", "config.unmanageHAProxyEndpointsVoided") {
+		caller := fnID(outermost(cs.Fn))
+		if strings.HasSuffix(caller, "ScheduleUnmanageHAProxyEndpoints") {
+			continue // the scheduler's own deferred call
+		}
+		nSites++
+		arg := cs.In.Common().Args[0]
+		viaHelper := helper != nil && Derives(arg, func(x ssa.Value) bool {
+			c, ok := x.(*ssa.Call)
+			return ok && c.Call.StaticCallee() != nil && origin(c.Call.StaticCallee()) == helper
+		})
+		r.Check(viaHelper && okHelper, "R5", "unmanage-set/"+shortFn(caller)+"/"+calleeShort(calleeID(cs.In)), posOf(cs.In),
+			"the endpoints handed to the proxy for deletion are previous-minus-current compared by registered expression (through EndpointsToUnmanage=%v, helper keeps exactly the previous entries whose expression the current list lacks=%v)", viaHelper, okHelper)
+	}
+	if nSites < 2 {
+		r.Undec("R5", "unmanage-set/call-sites", token.NoPos, "expected at least two places that unmanage endpoints after a reload, found %d", nSites)
+	}
+	if nId == 0 {
+		r.Hold("R5", "unmanage-set/no-identity-comparison", token.NoPos, 1, "no samber/lo set operation is applied to []*HAProxyEndpointData")
+	}
 }
